@@ -149,6 +149,17 @@ class FTPFile(io.RawIOBase):
         self.ftp = self._open_ftp()
         self._read_conn = None  # type: Optional[socket.socket]
         self._write_conn = None  # type: Optional[socket.socket]
+        if self.mode.appending:
+            # A file opened for appending is positioned at its end.
+            self.pos = self._get_size()
+
+    def _get_size(self):
+        # type: () -> int
+        """Get the current size of the file (0 if it doesn't exist yet)."""
+        try:
+            return self.fs.getsize(self.path)
+        except errors.ResourceNotFound:
+            return 0
 
     def _open_ftp(self):
         # type: () -> FTP
@@ -276,6 +287,10 @@ class FTPFile(io.RawIOBase):
             data = data.tobytes()
 
         with self._lock:
+            if self.mode.appending and self._write_conn is None:
+                # Appended data goes to the end of the file, wherever
+                # the position was.
+                self.pos = self._get_size()
             conn = self.write_conn
             data_pos = 0
             remaining_data = len(data)
@@ -325,6 +340,13 @@ class FTPFile(io.RawIOBase):
         if _whence not in (Seek.set, Seek.current, Seek.end):
             raise ValueError("invalid value for whence")
         with self._lock:
+            if self._write_conn is not None:
+                # Complete the pending upload first (as close does), so
+                # that the size of the file accounts for the data written.
+                self._write_conn.close()
+                self._write_conn = None
+                self.ftp.voidresp()
+
             if _whence == Seek.set:
                 new_pos = pos
             elif _whence == Seek.current:
@@ -340,9 +362,6 @@ class FTPFile(io.RawIOBase):
             if self._read_conn:
                 self._read_conn.close()
                 self._read_conn = None
-            if self._write_conn:
-                self._write_conn.close()
-                self._write_conn = None
         return self.tell()
 
 
